@@ -213,7 +213,7 @@ def name_clash_features(m):
                 fs.add("nameclash")
             if id(v) in order:
                 for user in v.used_by:
-                    if id(user) in order and order[id(user)] < order[id(v)]:
+                    if id(user) in order and order[id(user)] <= order[id(v)]:  # (<=: a phi that refers to itself is read before it is defined)
                         fs.add("nameclash")
     return fs
 
